@@ -115,6 +115,25 @@ def gen_cases(tier, seed):
             continue
         cases.append({"k": "dtpair", "j": r.choice(["-", "to", "bis", "until"]), "a": a.isoformat(), "b": b.isoformat(), "ha": ha, "ma": ma, "hb": hb, "mb": mb,
                       "fa": fa, "fb": fb, "ts": C.iso(refs[i % len(refs)])})
+    # ... and on neighbouring days at the calendar's seams (28/29 Feb/1 Mar in leap and other years, month and year ends),
+    # with the first clock before, equal to and after the second
+    seams = []
+    for y in (2020, 2024, 2023, 2021, 2000, 2028):
+        seams += [(date(y, 2, 28), date(y, 3, 1)), (date(y, 12, 31), date(y + 1, 1, 1)), (date(y, 4, 30), date(y, 5, 1)), (date(y, 1, 31), date(y, 2, 1))]
+        if cal.mlen(y, 2) == 29:
+            seams += [(date(y, 2, 28), date(y, 2, 29)), (date(y, 2, 29), date(y, 3, 1))]
+    k2 = 0
+    for a, b in seams:
+        if not (1990 <= a.year and b.year <= 2029):
+            continue
+        for (ha, ma, hb, mb) in ((22, 0, 6, 0), (9, 0, 10, 0), (10, 30, 10, 30), (0, 0, 0, 0), (23, 59, 0, 0)):
+            for rev in (0, 1):
+                k2 += 1
+                if tier != "thorough" and k2 % 2:
+                    continue
+                x, z = (b, a) if rev else (a, b)
+                cases.append({"k": "dtpair", "j": ["-", "to", "bis", "until"][k2 % 4], "a": x.isoformat(), "b": z.isoformat(), "ha": ha, "ma": ma, "hb": hb, "mb": mb,
+                              "fa": "hm", "fb": "hm", "ts": C.iso(refs[k2 % len(refs)])})
     # half-open
     xs = []
     for i in range(60 if tier == "thorough" else 12):
